@@ -141,6 +141,11 @@ def check(ctx):
     check_step(ctx, "par_next", True)
     from .common import check_population_size
     check_population_size(ctx, "R09.1")
+    for name in ("population", "into_population"):
+        g = ctx.fn(G + name)
+        ps = return_paths(ctx.paths(g))
+        r = peel(ps[0].ret, ()) if len(ps) == 1 else ("unknown",)
+        ctx.check(r[0] == "field" and r[2] == "population" and peel(r[1], ()) == ("param", 1) and not ps[0].calls(), "R09.2", "Generation::%s-returns-the-population-field" % name, short(ps[0].ret) if ps else "-", g.at())
     # ---- who may write Generation.population -------------------------------------
     writers = set()
     for fn in F.fns.values():
